@@ -96,6 +96,10 @@ def delta(tier):
         out.append(("delta", dict(block=8, minis=1, count=12, longval=False, widths=[[3], [5]])))
         out.append(("delta", dict(block=128, minis=4, count=40, longval=True, widths=[[7, 3, 0, 0]])))
         out.append(("delta", dict(block=128, minis=4, count=70, longval=False, widths=[[0, 9, 2, 0]])))
+        # first value and per-block minimum delta over their whole 64-bit range (10-byte zigzag varints), and 5-byte ones
+        out.append(("delta", dict(block=8, minis=1, count=6, longval=True, widths=[[4]], vlen=10, dlen=10)))
+        out.append(("delta", dict(block=8, minis=1, count=11, longval=True, widths=[[0], [2]], vlen=10, dlen=10)))
+        out.append(("delta", dict(block=8, minis=1, count=6, longval=False, widths=[[4]], vlen=5, dlen=5)))
         out.append(("delta", dict(block=16, minis=2, count=1, longval=True, widths=[])))
         out.append(("delta", dict(block=16, minis=2, count=2, longval=False, widths=[[4, 0]])))
     else:
@@ -111,6 +115,9 @@ def delta(tier):
             out.append(("delta", dict(block=8, minis=1, count=n, longval=True, widths=[[5]] * nb)))
             nb = max(0, (n - 1 + 15) // 16)
             out.append(("delta", dict(block=16, minis=2, count=n, longval=False, widths=[[3, 6]] * nb)))
+        for vl in (1, 3, 5, 9, 10):
+            for lv in (False, True):
+                out.append(("delta", dict(block=8, minis=1, count=7, longval=lv, widths=[[3]], vlen=vl, dlen=vl)))
         out.append(("delta", dict(block=128, minis=4, count=130, longval=True,
                                   widths=[[7, 3, 0, 11], [2, 0, 0, 0]])))
         out.append(("delta", dict(block=128, minis=4, count=100, longval=False, widths=[[1, 9, 2, 5]])))
